@@ -61,109 +61,219 @@ def takeCaps : List Tok → List String → (List String × List Tok)
   | .cap s :: rest, acc => takeCaps rest (acc ++ [s])
   | ts, acc => (acc, ts)
 
-/-- Accumulator while reading the children of a node pattern. -/
+/-- Surface child elements: a child pattern, or a parenthesised group of elements with an optional
+quantifier and captures.  `dot`: a `.` precedes the element. -/
+inductive Elem where
+  | item (dot : Bool) (it : Item)
+  | group (dot : Bool) (es : List Elem) (q : Quant) (caps : List String)
+  deriving Inhabited
+
+/-- Accumulator while reading the elements between `(` … `)`. -/
 structure KidsAcc where
-  items : Array Item := #[]
+  elems : Array Elem := #[]
   neg : List String := []
   dot : Bool := false
-  prevWild : Bool := false   -- the previous child pattern is the unnamed wildcard `_`
-  group : Nat := 0           -- open non-quantified groups `( … )` whose items are spliced in
 
 def isWildAny : Item → Bool
   | .mk _ _ (.node .wildAny _ _ _) .one _ => true
   | _ => false
 
+/-! ### Groups are desugared (`expandElems`)
+
+The model has no group constructor.  A node pattern whose children contain groups is expanded into
+VARIANTS of its child list; with more than one variant the node pattern becomes an alternation of the
+variants (same node test, same negated fields):
+* a plain group is spliced in; an anchor before it goes to its first item;
+* captures on a group go to the first item of every repetition (the compiler adds them to the
+  group's first step), after that item's own captures;
+* `( … )?` = the variants without and with the items; `( … )*` / `( … )+` = 0/1 … `n` repetitions
+  (`n` = the largest fan-out of the tree, at least 2: more repetitions cannot match); repetitions are
+  an order-preserving selection like repetitions of a single child pattern;
+* when a quantified group contributes no item (`V.gap`), the anchor of the next item is waived, as
+  after a single optional child pattern that matched nothing.
+Outside the fragment (`none`): an anchor before a quantified group or inside a group at its start /
+end, a captured or anchored group whose first element is quantified, a repeated group that itself
+has variants, more than 128 variants. -/
+
+inductive V where
+  | it (dot : Bool) (i : Item)
+  | gap
+  deriving Inhabited
+
+def concatAll (xs ys : List (List V)) : List (List V) := xs.flatMap fun a => ys.map fun b => a ++ b
+
+def powV (vs : List (List V)) : Nat → List (List V)
+  | 0 => [[]]
+  | k + 1 => concatAll vs (powV vs k)
+
+def markFirst (caps : List String) (v : List V) : Option (List V) :=
+  if caps.isEmpty then some v else
+  match v with
+  | .it d (.mk i f p .one cs) :: r => some (.it d (.mk i f p .one (cs ++ caps)) :: r)
+  | _ => none
+
+def setDot (v : List V) : Option (List V) :=
+  match v with
+  | .it _ (.mk i f p .one cs) :: r => some (.it true (.mk i f p .one cs) :: r)
+  | _ => none
+
+def firstHasDot : List Elem → Bool
+  | .item d _ :: _ => d
+  | .group d _ _ _ :: _ => d
+  | [] => false
+
 mutual
-  /-- item := [ident ':'] core [quant] cap* ; `imm` = a '.' preceded it. -/
-  def parseItem (sups : List String) (fuel : Nat) (imm : Anchor) (ts : List Tok) : Option (Item × List Tok) :=
+  def expandElem (n : Nat) : Elem → Option (List (List V))
+    | .item d it => some [[.it d it]]
+    | .group d es q caps =>
+      if firstHasDot es || (d && q != .one) then none else
+      match expandElems n es with
+      | none => none
+      | some vs0 =>
+        match vs0.mapM (markFirst caps) with
+        | none => none
+        | some vs =>
+          match q with
+          | .one => if d then vs.mapM setDot else some vs
+          | .opt => some ([.gap] :: vs)
+          | .star => if vs.length != 1 then none else some ([.gap] :: (List.range n).flatMap fun k => powV vs (k + 1))
+          | .plus => if vs.length != 1 then none else some ((List.range n).flatMap fun k => powV vs (k + 1))
+  def expandElems (n : Nat) : List Elem → Option (List (List V))
+    | [] => some [[]]
+    | e :: rest =>
+      match expandElem n e, expandElems n rest with
+      | some a, some b => let r := concatAll a b; if r.length > 128 then none else some r
+      | _, _ => none
+end
+
+/-- Decide the anchors: `.` is loose, strict after the unnamed wildcard `_`, waived after a gap. -/
+def finalizeV : List V → Bool → Bool → List Item
+  | [], _, _ => []
+  | .gap :: r, pw, _ => finalizeV r pw true
+  | .it d (.mk _ f p q c) :: r, pw, w =>
+    let a : Anchor := if d && !w then (if pw then .strict else .loose) else .none
+    let it : Item := .mk a f p q c
+    it :: finalizeV r (isWildAny it) false
+
+def buildNode (n : Nat) (t : NodeTest) (acc : KidsAcc) : Option Pat :=
+  let mk (v : List V) : Pat :=
+    let items := finalizeV v false false
+    .node t acc.neg items (acc.dot && !items.isEmpty)
+  match expandElems n acc.elems.toList with
+  | none => none
+  | some [] => none
+  | some [v] => some (mk v)
+  | some vs => some (.alt (vs.map fun v => .mk .none none (mk v) .one []))
+
+mutual
+  /-- item := [ident ':'] core [quant] cap* -/
+  def parseItem (sups : List String) (n : Nat) (fuel : Nat) (ts : List Tok) : Option (Item × List Tok) :=
     match fuel with
     | 0 => none
     | fuel + 1 =>
       let (field, ts) := match ts with
         | .ident f :: .colon :: rest => (some f, rest)
         | _ => (none, ts)
-      match parseCore sups fuel ts with
+      match parseCore sups n fuel ts with
       | none => none
       | some (p, ts) =>
         let (q, ts) := match ts with
           | .quant q :: rest => (q, rest)
           | _ => (Quant.one, ts)
         let (caps, ts) := takeCaps ts []
-        if imm != .none && q != .one then none else some (.mk imm field p q caps, ts)
-  def parseCore (sups : List String) (fuel : Nat) (ts : List Tok) : Option (Pat × List Tok) :=
+        some (.mk .none field p q caps, ts)
+  def parseCore (sups : List String) (n : Nat) (fuel : Nat) (ts : List Tok) : Option (Pat × List Tok) :=
     match fuel with
     | 0 => none
     | fuel + 1 =>
       match ts with
       | .str s :: rest => some (.node (.kind s false) [] [] false, rest)
       | .under :: rest => some (.node .wildAny [] [] false, rest)
-      | .lb :: rest => parseAlts sups fuel rest #[]
+      | .lb :: rest => parseAlts sups n fuel rest #[]
       | .lp :: .ident "MISSING" :: .rp :: rest => some (.node .missingAny [] [] false, rest)
       | .lp :: .ident "MISSING" :: .ident k :: .rp :: rest => some (.node (.missingKind k true) [] [] false, rest)
       | .lp :: .ident "MISSING" :: .str k :: .rp :: rest => some (.node (.missingKind k false) [] [] false, rest)
-      | .lp :: .ident "ERROR" :: rest => parseKids sups fuel .error rest {}
-      | .lp :: .ident k :: .slash :: .ident sub :: rest => parseKids sups fuel (.super k (some (sub, true))) rest {}
-      | .lp :: .ident k :: .slash :: .str sub :: rest => parseKids sups fuel (.super k (some (sub, false))) rest {}
+      | .lp :: .ident "ERROR" :: rest => parseKids sups n fuel .error rest
+      | .lp :: .ident k :: .slash :: .ident sub :: rest => parseKids sups n fuel (.super k (some (sub, true))) rest
+      | .lp :: .ident k :: .slash :: .str sub :: rest => parseKids sups n fuel (.super k (some (sub, false))) rest
       | .lp :: .ident k :: rest =>
-        parseKids sups fuel (if sups.contains k then .super k none else .kind k true) rest {}
-      | .lp :: .under :: rest => parseKids sups fuel .wildNamed rest {}
+        parseKids sups n fuel (if sups.contains k then .super k none else .kind k true) rest
+      | .lp :: .under :: rest => parseKids sups n fuel .wildNamed rest
       | _ => none
-  def parseKids (sups : List String) (fuel : Nat) (t : NodeTest) (ts : List Tok) (acc : KidsAcc) : Option (Pat × List Tok) :=
+  def parseKids (sups : List String) (n : Nat) (fuel : Nat) (t : NodeTest) (ts : List Tok) : Option (Pat × List Tok) :=
+    match fuel with
+    | 0 => none
+    | fuel + 1 =>
+      match parseElems sups n fuel ts {} with
+      | none => none
+      | some (acc, rest) =>
+        match buildNode n t acc with
+        | none => none
+        | some p => some (p, rest)
+  /-- Elements up to and including the closing `)`. -/
+  def parseElems (sups : List String) (n : Nat) (fuel : Nat) (ts : List Tok) (acc : KidsAcc) : Option (KidsAcc × List Tok) :=
     match fuel with
     | 0 => none
     | fuel + 1 =>
       match ts with
-      | .rp :: rest =>
-        if acc.group > 0 then
-          -- end of a non-quantified, uncaptured group: its items were spliced into the sibling
-          -- sequence (a quantified or captured group is outside the fragment)
-          match rest with
-          | .quant _ :: _ => none
-          | .cap _ :: _ => none
-          | _ => if acc.dot then none else parseKids sups fuel t rest { acc with group := acc.group - 1 }
-        else
-        some (.node t acc.neg acc.items.toList (acc.dot && !acc.items.isEmpty), rest)
-      | .dot :: rest => if acc.dot then none else parseKids sups fuel t rest { acc with dot := true }
+      | .rp :: rest => some (acc, rest)
+      | .dot :: rest => if acc.dot then none else parseElems sups n fuel rest { acc with dot := true }
       | .bang :: .ident f :: rest =>
-        if acc.dot then none else parseKids sups fuel t rest { acc with neg := acc.neg ++ [f] }
+        if acc.dot then none else parseElems sups n fuel rest { acc with neg := acc.neg ++ [f] }
       | .lp :: .rp :: _ => none
-      | .lp :: .lp :: rest => parseKids sups fuel t (.lp :: rest) { acc with group := acc.group + 1 }
-      | .lp :: .lb :: rest => parseKids sups fuel t (.lb :: rest) { acc with group := acc.group + 1 }
-      | .lp :: .str x :: rest => parseKids sups fuel t (.str x :: rest) { acc with group := acc.group + 1 }
+      | .lp :: .lp :: rest => parseGroup sups n fuel (.lp :: rest) acc
+      | .lp :: .lb :: rest => parseGroup sups n fuel (.lb :: rest) acc
+      | .lp :: .str x :: rest => parseGroup sups n fuel (.str x :: rest) acc
       | _ =>
-        let a : Anchor := if acc.dot then (if acc.prevWild then .strict else .loose) else .none
-        match parseItem sups fuel a ts with
+        match parseItem sups n fuel ts with
         | none => none
         | some (it, rest) =>
-          parseKids sups fuel t rest { acc with items := acc.items.push it, dot := false, prevWild := isWildAny it }
-  def parseAlts (sups : List String) (fuel : Nat) (ts : List Tok) (acc : Array Item) : Option (Pat × List Tok) :=
+          -- an anchor before a quantified child pattern is outside the fragment
+          if acc.dot && it.quant != .one then none
+          else parseElems sups n fuel rest { acc with elems := acc.elems.push (.item acc.dot it), dot := false }
+  /-- A group (its `(` already consumed), then its quantifier and captures. -/
+  def parseGroup (sups : List String) (n : Nat) (fuel : Nat) (ts : List Tok) (acc : KidsAcc) : Option (KidsAcc × List Tok) :=
+    match fuel with
+    | 0 => none
+    | fuel + 1 =>
+      match parseElems sups n fuel ts {} with
+      | none => none
+      | some (g, rest) =>
+        if g.dot || !g.neg.isEmpty || g.elems.isEmpty then none else
+        let (q, rest) := match rest with
+          | .quant q :: r => (q, r)
+          | _ => (Quant.one, rest)
+        let (caps, rest) := takeCaps rest []
+        parseElems sups n fuel rest { acc with elems := acc.elems.push (.group acc.dot g.elems.toList q caps), dot := false }
+  def parseAlts (sups : List String) (n : Nat) (fuel : Nat) (ts : List Tok) (acc : Array Item) : Option (Pat × List Tok) :=
     match fuel with
     | 0 => none
     | fuel + 1 =>
       match ts with
       | .rb :: rest => if acc.isEmpty then none else some (.alt acc.toList, rest)
       | _ =>
-        match parseItem sups fuel .none ts with
+        match parseItem sups n fuel ts with
         | none => none
-        | some (it, rest) => if it.quant != .one then none else parseAlts sups fuel rest (acc.push it)
+        | some (it, rest) => if it.quant != .one then none else parseAlts sups n fuel rest (acc.push it)
 end
 
-def parseTop (sups : List String) (fuel : Nat) (ts : List Tok) (acc : Array Item) : Option (List Item) :=
+def parseTop (sups : List String) (n : Nat) (fuel : Nat) (ts : List Tok) (acc : Array Item) : Option (List Item) :=
   match fuel with
   | 0 => none
   | fuel + 1 =>
     match ts with
     | [] => some acc.toList
     | _ =>
-      match parseItem sups (ts.length + 2) .none ts with
+      match parseItem sups n (5 * ts.length + 8) ts with
       | none => none
       | some (it, rest) =>
         match it with
-        | .mk _ f _ q _ => if q != .one || f.isSome then none else parseTop sups fuel rest (acc.push it)
+        | .mk _ f _ q _ => if q != .one || f.isSome then none else parseTop sups n fuel rest (acc.push it)
 
-def parseQuery (text : String) (sups : List String := []) : Option (List Item) :=
+/-- `maxRep`: how often a starred group is unrolled (the largest fan-out of the tree suffices). -/
+def parseQuery (text : String) (sups : List String := []) (maxRep : Nat := 3) : Option (List Item) :=
   let toks := (tokenize (text.length + 1) text.toList #[]).toList
-  if toks.contains .bad then none else parseTop sups (toks.length + 1) toks #[]
+  if toks.contains .bad then none else parseTop sups (max maxRep 2) (toks.length + 1) toks #[]
 
 mutual
   def Pat.hasQuant : Pat → Bool
